@@ -160,3 +160,25 @@ pub proof fn lemma_error_code_unwire_unique(raw: Seq<u8>, e: ErrorCodeType)
     lemma_utf8_injective(e1.reason_chars(), e.reason_chars());
     lemma_error_code_ext(e1, e);
 }
+
+// ---------------------------------------------------------------- common.rs: UTF-8 text values (`impl Decode for &str`, `impl Encode for &str`)
+impl<'a> Decode<'a> for &'a str {
+//@item stun_rs :: mod common > impl<'a> crate::Decode<'a> for &'a str > fn decode
+//@tags C01 C02 C03
+//@sub "value.len()" => "vx_str_len(value)"
+//@spec
+    ensures r is Ok <==> vstd::utf8::valid_utf8(raw_value@),
+        r is Ok ==> r->Ok_0.1 == raw_value@.len() && r->Ok_0.0.spec_bytes() == raw_value@,
+//@end
+}
+impl Encode for &str {
+//@item stun_rs :: mod common > impl Encode for &str > fn encode
+//@tags C01 C02 C14
+//@sub "self.len()" => "vx_str_len(self)"
+//@spec
+    ensures final(raw_value)@.len() == old(raw_value)@.len(),
+        r is Ok <==> old(raw_value)@.len() >= self.spec_bytes().len(),
+        r is Ok ==> r->Ok_0 == self.spec_bytes().len() && final(raw_value)@.subrange(0, r->Ok_0 as int) == self.spec_bytes()
+            && forall|i: int| r->Ok_0 <= i < old(raw_value)@.len() ==> final(raw_value)@[i] == old(raw_value)@[i],
+//@end
+}
